@@ -254,7 +254,8 @@ func inv_Build_pass1(g *Graph, injector *Injector, pools [][]*node, poolProvided
 	vs.Invariant("pools_exist", len(topoOrder(g)) == 0 || len(pools) >= 1)
 	vs.Invariant("values", vs.Forall(kvcIdx, func(j int) bool { return valuesReady(topoOrder(g)[j]) }))
 	vs.Invariant("placed", vs.Forall(kvcIdx, func(j int) bool {
-		return vs.Has(nodeToPoolIdx, topoOrder(g)[j]) && nodeToPoolIdx[topoOrder(g)[j]] == gPoolOf[topoOrder(g)[j]]
+		return vs.Has(nodeToPoolIdx, topoOrder(g)[j]) && nodeToPoolIdx[topoOrder(g)[j]] == gPoolOf[topoOrder(g)[j]] &&
+			(gPoolOf[topoOrder(g)[j]] == -1) == (topoOrder(g)[j].providerSpec == nil) && gPoolOf[topoOrder(g)[j]] >= -1
 	}))
 	vs.Invariant("args_ready", injectorArgsReady(injector))
 	vs.Invariant("initial_only_arguments", providedBound(g, initialProvidedNodes, 0))
